@@ -127,7 +127,7 @@ func genHist(rng *rand.Rand, nops int) hist {
 
 type stats struct {
 	ops, dumps, pairs, withdrawals, opWithdrawals, sharedReleases, maxInUse int
-	sharedID, unhashedPair                                   bool
+	sharedID, unhashedPair                                                  bool
 }
 
 type result struct {
